@@ -106,6 +106,7 @@ class Session:
         self.listener = False
         self.dc = False
         self.closed = False
+        self.ipv6_only = False  # the server listens on an IPv6 address: PASV cannot be served
 
     # ----------------------------------------------------------------- helpers
     @property
@@ -234,6 +235,8 @@ class Session:
         if v == "PROT":
             return Expect({"200"} if arg == "P" else {"5xx"})
         if v == "PASV":
+            if self.ipv6_only:
+                return Expect({"5xx"}, note="PASV on an IPv6 listener")
             return Expect({"227"})
         if v == "EPSV":
             return Expect({"229"} if arg == "" else {"5xx"})
